@@ -368,4 +368,60 @@ theorem render_text_lines (x c0 : Bytes) (more : List Item) :
       have e : bytesI c0 ++ [Item.byte c] = bytesI (c0 ++ [c]) := by simp
       rw [e, ih]
 
+/-! ### the same walk with the engine's two extra line breaks -/
+
+theorem splitLinesE_byte_LF (is cur : List Item) :
+    splitLinesE (.byte LF :: is) cur = (false, cur ++ [.byte LF]) :: splitLinesE is [] := by
+  simp [splitLinesE]
+theorem splitLinesE_byte_ne (c : UInt8) (is cur : List Item) (h : (c == LF) = false) :
+    splitLinesE (.byte c :: is) cur = splitLinesE is (cur ++ [.byte c]) := by
+  simp [splitLinesE, h]
+theorem splitLinesE_tok_plain (t : NT) (is cur : List Item) (h : breaksBefore t is.isEmpty = false) :
+    splitLinesE (.tok t :: is) cur = splitLinesE is (cur ++ [.tok t]) := by
+  simp [splitLinesE, h]
+theorem splitLinesE_tok_break (t : NT) (is cur : List Item) (h : breaksBefore t is.isEmpty = true) :
+    splitLinesE (.tok t :: is) cur = (true, cur) :: splitLinesE is [.tok t] := by
+  simp [splitLinesE, h]
+@[simp] theorem splitLinesE_nil (cur : List Item) : splitLinesE [] cur = [(false, cur)] := rfl
+
+theorem splitLinesE_noLF (bs : Bytes) (more cur : List Item) (h : noLF bs = true) :
+    splitLinesE (bytesI bs ++ more) cur = splitLinesE more (cur ++ bytesI bs) := by
+  induction bs generalizing cur with
+  | nil => simp
+  | cons c cs ih =>
+    rw [noLF_cons, Bool.and_eq_true] at h
+    have hc : (c == LF) = false := by simpa using h.1
+    rw [bytesI_cons, List.cons_append, splitLinesE_byte_ne _ _ _ hc, ih _ h.2]
+    simp
+
+theorem splitLinesE_first_LF (H R : Bytes) (more cur : List Item) (h : noLF H = true) :
+    splitLinesE (bytesI (H ++ LF :: R) ++ more) cur
+      = (false, cur ++ bytesI H ++ [.byte LF]) :: splitLinesE (bytesI R ++ more) [] := by
+  rw [bytesI_append, List.append_assoc, splitLinesE_noLF _ _ _ h, bytesI_cons, List.cons_append,
+    splitLinesE_byte_LF]
+
+theorem render_text_linesE (x c0 : Bytes) (more : List Item) :
+    (splitLinesE (bytesI x ++ more) (bytesI c0)).flatMap renderLineE
+      = doneAux x c0 ++ (splitLinesE more (bytesI (lastAux x c0))).flatMap renderLineE := by
+  induction x generalizing c0 with
+  | nil => simp
+  | cons c cs ih =>
+    by_cases hc : c == LF
+    · have : c = LF := eq_of_beq hc
+      subst this
+      rw [bytesI_cons, List.cons_append, splitLinesE_byte_LF, List.flatMap_cons, doneAux_cons_LF,
+        lastAux_cons_LF]
+      have := ih []
+      simp only [bytesI_nil] at this
+      rw [this]
+      have e : bytesI c0 ++ [Item.byte LF] = bytesI (c0 ++ [LF]) := by simp
+      simp only [renderLineE]
+      rw [e, renderLine_bytes]
+      simp
+    · have hc' : (c == LF) = false := by simpa using hc
+      rw [bytesI_cons, List.cons_append, splitLinesE_byte_ne _ _ _ hc', doneAux_cons_ne _ _ _ hc',
+        lastAux_cons_ne _ _ _ hc']
+      have e : bytesI c0 ++ [Item.byte c] = bytesI (c0 ++ [c]) := by simp
+      rw [e, ih]
+
 end ScriggoV.CutSpec
